@@ -1,7 +1,7 @@
 """Contracts: emmet/config.py  (C20, C08)."""
 from pyvc.contracts import fn, cls, define, glob
 
-P = ['C20']
+P = ['C20', 'C08']
 
 # the built-in layer tables are kept abstract: arbitrary dictionaries, never written (frame obligations)
 glob('emmet.config:SYNTAX_CONFIG', 'map')
